@@ -19,7 +19,8 @@ func init() { labs["kern"] = labKern }
 
 // The kern lab runs INSIDE the client network namespace of a chain built by tools/netlab.py: real raw sockets,
 // real AF_PACKET capture, replies produced by the kernel's own IP/ICMP/TCP stack.
-//   input (17 n proto method port first last silent port_state+4*v6)  impl (status notsup (hop...) )   hop = (ttl #ip dest rtt_negative)
+//
+//	input (17 n proto method port first last silent port_state+4*v6)  impl (status notsup (hop...) )   hop = (ttl #ip dest rtt_negative)
 type kernScenario struct {
 	N         int    `json:"n"`
 	Proto     string `json:"proto"`
